@@ -59,9 +59,12 @@ static bool parse_shift(const std::string &t, computus::Shift &s) {
 }
 static std::string judge_shift(const SCase &c) {
 	std::string err;
-	// baseline: the unshifted rule anchored two years earlier (INTERVAL=1 so the phase is the same)
+	// baseline: the unshifted rule anchored at least two years earlier, by a whole number of INTERVAL steps so that the phase is the same
 	civil::YMD q = civil::civil_from_days(c.start);
-	int64_t early = civil::days_from_civil(q.y - 2, q.m, std::min<unsigned>(q.d, 28));
+	int iv = 1; { size_t p = c.rule.find("INTERVAL="); if (p != std::string::npos) iv = std::max(1, atoi(c.rule.c_str() + p + 9)); }
+	int step = c.rule.find("FREQ=YEARLY") != std::string::npos ? 12 * iv : iv, back = step * ((24 + step - 1) / step);
+	int mm = (q.y * 12 + ((int)q.m - 1)) - back;
+	int64_t early = civil::days_from_civil(mm / 12, (unsigned)(mm % 12) + 1, std::min<unsigned>(q.d, 28));
 	int n = c.count > 0 ? c.count : 120;
 	// the baseline must reach well past the n-th shifted occurrence: dense rules need many pops
 	std::vector<int64_t> base = unroll_days(c.rule, early, 4000, &err, HI);
@@ -144,6 +147,8 @@ void prop_gen(Ctx &c) {
 		}
 		c.start = civil::days_from_civil(std::get<4>(t), (unsigned)std::get<5>(t), (unsigned)std::get<6>(t));
 		if (std::get<7>(t) < 4) c.count = std::get<8>(t);
+		// every third rule steps by more than one month / year
+		{ static const int IV[] = {2, 3, 4, 5, 6, 7, 12, 2, 3}; int pick = std::get<8>(t); if (pick % 3 == 0) { int ivl = IV[(pick / 3) % 9]; if (c.rule.compare(0, 11, "FREQ=YEARLY") == 0) ivl = 2 + ivl % 3; size_t sc = c.rule.find(';'); c.rule.insert(sc == std::string::npos ? c.rule.size() : sc, ";INTERVAL=" + std::to_string(ivl)); } }
 		return c; });
 	auto genEasterList = rc::gen::container<std::vector<int>>(3, R(-366, 367));
 	rc::check("C17 sampled", [&]() {
@@ -159,6 +164,8 @@ void prop_gen(Ctx &c) {
 		SCase cs = *genBase; cs.sh = *genShift;
 		// open finding: a shift that leaves the year before/after (only three per-year candidate sets exist)
 		if (c.excl("shift_two_years") && std::abs(cs.sh.d) + std::abs(cs.sh.b) * 7 / 5 + 4 >= 365) { c.st.excluded["shift_two_years"]++; return; }
+		// open finding: SHIFT on a rule stepping by more than one month / year (the fillers start early or late by single months / years and re-anchor at shifted dates: the INTERVAL phase is lost)
+		if (c.excl("shift_interval") && cs.rule.find("INTERVAL=") != std::string::npos) { c.st.excluded["shift_interval"]++; return; }
 		std::string txt = sctext(cs);
 		std::string m = judge_shift(cs);
 		if (m.compare(0, 9, "baseline:") == 0) { c.st.extra["baseline_failed"]++; RC_DISCARD("baseline"); }
@@ -169,6 +176,7 @@ void prop_gen(Ctx &c) {
 		if (cs.sh.has_b && cs.sh.d) v.classes.push_back("shift/days+bdays");
 		if (w >= 6) v.classes.push_back("start-on-weekend");
 		if (cs.count > 0) v.classes.push_back("COUNT");
+		if (cs.rule.find("INTERVAL=") != std::string::npos) v.classes.push_back("INTERVAL>1");
 		c.st.record(txt, v);
 		if (!m.empty()) { if (survey) { c.st.survey_add(v.classes[0] + " " + m.substr(0, 14), txt + " :: " + m); return; } c.note_fail(txt, m); RC_FAIL(m); }
 	});
